@@ -8,9 +8,8 @@
      * min_partition (the reference optimum the harness compares with at m <= 7) is the least number of axes of a
        valid partition; it lies between 1 and ceil(m/2)
      * brute_force_ok (the judge of the brute-force function) is exactly the second sentence of the property.
-     * the MIRROR bf_algo of the repaired brute force (Model/PartitionAlgo.v) is SOUND for every size (bf_sound,
-       bf_none_when_infeasible, bf_some_bounds); its minimality is proved on small domains only
-       (bf_complete_min_partial_small; the full statement and what is missing are written next to it).
+     * the MIRROR bf_algo of the repaired brute force (Model/PartitionAlgo.v) is SOUND (bf_sound) and COMPLETE / MINIMUM
+       (bf_complete_min) for every size, hence satisfies the second sentence of the property (bf_algo_ok).
 
    Model (Model/Partition.v, Model/SP.v): alternatives are N; profile = list of flat strict rankings (best first);
    restrict_ranking S r = [a for a in r if a in S]; axes = list of lists of alternatives.
@@ -28,7 +27,7 @@
    alternatives only inside one L-set); repaired by 175f7ec; witness: Example C18_finding_KF_C18_a at the end. *)
 From Coq Require Import List Arith NArith Bool Permutation.
 From PrefVerif Require Import Lib.Val Lib.Contig Lib.SetPartitions Model.SP Model.ELPDP Model.Partition Model.PartitionAlgo
-                              Proofs.SP Proofs.Partition Proofs.PartitionAlgo.
+                              Proofs.SP Proofs.Partition Proofs.PartitionAlgo Proofs.PartitionComplete.
 Import ListNotations.
 
 (* ---- the enumeration of set partitions -------------------------------------------------------- *)
@@ -197,39 +196,24 @@ Theorem bf_some_bounds : forall set_order alts votes k res,
 Proof. exact Proofs.PartitionAlgo.bf_some_bounds. Qed.
 Print Assumptions bf_some_bounds.
 
-(* COMPLETENESS / MINIMALITY of the mirror - full statement, NOT proved for all sizes:
-     Theorem bf_complete_min : forall set_order alts votes k axes, wf_profile alts votes -> votes <> [] ->
-       (forall L, Permutation L (set_order L)) -> 1 <= k ->
-       valid_partition alts votes axes -> length axes <= k ->
-       exists res, bf_algo set_order alts votes k = Some res /\ length res <= length axes.
-   (with bf_sound / bf_some_bounds this gives brute_force_ok alts votes k (bf_algo ...) = true for every k >= 1.)
-   What is missing is the completeness half of the Erdelyi-Lackner-Pfandler argument for place(): if X is exactly the
-   set of alternatives that some voter ranks last among the not yet placed alternatives R of a target axis T, and the
-   incomplete axis agrees with SOME single-peaked arrangement of T, then case_2 / case_3 accept X and the result again
-   agrees with some single-peaked arrangement of T (place may choose another orientation than T's, so the invariant
-   has to quantify over arrangements).  Proofs/ELPDP.v contains the soundness half only (sp_insert1/2, armG/armH).
-   The search skeleton around it (every alternative of R with the smallest L-index is one of the at most two end
-   points of R, so the pieces of the target are among the enumerated extensions; limit() never cuts a branch that
-   leads to fewer axes than the best found) is the sketch in notes/c18_fix_candidate.patch.
-   PARTIAL RESULT proved here: the kernel evaluates the mirror on EVERY profile of the following small domains
-   (votes with repetitions, in every order; every k in 1..m+1) and the answer satisfies brute_force_ok:
-     m <= 3 alternatives: every list of <= 3 votes (m = 3: <= 4 votes);  m = 4: every list of <= 3 votes;  m = 5: one vote.
-   Beyond that the implementation is compared with min_partition by the harness (exhaustive m = 5 with <= 4 orders
-   up to relabelling in the thorough tier, tens of thousands of profiles with m = 6..9), and with this mirror. *)
-Theorem bf_complete_min_partial_small : forall m n,
-  In (m, n) [(1,3); (2,3); (3,1); (3,2); (3,3); (3,4); (4,1); (4,2); (4,3); (5,1)] ->
-  let alts := map N.of_nat (seq 1 m) in
-  forall profile, length profile = n -> Forall (fun v => Permutation alts v) profile ->
-  forall k, 1 <= k <= S m ->
-  brute_force_ok alts profile k (bf_algo (fun L => L) alts profile k) = true.
-Proof.
-  intros m n Hmn. apply Proofs.PartitionAlgo.small_ok_spec.
-  destruct Proofs.PartitionAlgo.small_ok_3 as (A1 & A2 & A3 & A4 & A5 & A6).
-  destruct Proofs.PartitionAlgo.small_ok_4 as (B1 & B2 & B3).
-  pose proof Proofs.PartitionAlgo.small_ok_5 as C1.
-  simpl in Hmn. repeat (destruct Hmn as [Hmn|Hmn]; [injection Hmn as <- <-; assumption|]). contradiction.
-Qed.
-Print Assumptions bf_complete_min_partial_small.
+(* COMPLETENESS / MINIMALITY of the mirror, every size (Proofs/PartitionComplete.v; uses place_complete of
+   Proofs/ELPComplete.v - the completeness half of the Erdelyi-Lackner-Pfandler argument for place() - and the level
+   sets of Proofs/ELPLevels.v): a valid partition with at most k axes exists -> the mirror answers Some partition with
+   at most as many axes *)
+Theorem bf_complete_min : forall set_order alts votes k axes,
+  wf_profile alts votes -> votes <> [] -> (forall L, Permutation L (set_order L)) ->
+  valid_partition alts votes axes -> length axes <= k ->
+  exists res, bf_algo set_order alts votes k = Some res /\ length res <= length axes.
+Proof. exact Proofs.PartitionComplete.bf_complete_min. Qed.
+Print Assumptions bf_complete_min.
+
+(* hence the SECOND SENTENCE of the property is a theorem about the mirror, for every size and every bound k: its answer
+   is a valid partition with the smallest possible number of axes when that number is at most k, and None otherwise *)
+Theorem bf_algo_ok : forall set_order alts votes k,
+  wf_profile alts votes -> votes <> [] -> (forall L, Permutation L (set_order L)) ->
+  brute_force_ok alts votes k (bf_algo set_order alts votes k) = true.
+Proof. exact Proofs.PartitionComplete.bf_algo_ok. Qed.
+Print Assumptions bf_algo_ok.
 
 (* ---- non-vacuity ------------------------------------------------------------------------------ *)
 Open Scope N_scope.
